@@ -122,9 +122,16 @@ def literal_expression(e):
         return all(literal_expression(x) for x in e.elts)
     if isinstance(e, ast.Dict):
         return all(k is not None and literal_expression(k) and literal_expression(v) for k, v in zip(e.keys, e.values))
-    if isinstance(e, ast.Call) and not e.keywords and ast.unparse(e.func) in ('str.maketrans', 'frozenset', 'set', 'tuple', 'dict'):
+    if isinstance(e, ast.Call) and not e.keywords and ast.unparse(e.func) in ('str.maketrans', 'frozenset', 'set', 'tuple', 'dict',
+                                                                              're.compile'):
         return all(literal_expression(a) for a in e.args)
     return False
+
+
+def eval_literal_expression(e):
+    import re as _re
+    return eval(compile(ast.Expression(e), '<constant>', 'eval'),
+                {'__builtins__': {}, 'str': str, 'frozenset': frozenset, 'set': set, 'tuple': tuple, 'dict': dict, 're': _re})
 
 
 def loops_in(fn):
@@ -514,6 +521,11 @@ class Engine:
             return self.world[name]
         if name.startswith('__') and name in getattr(self, 'top_env', {}):
             return self.top_env[name]       # hidden objects of the contract's environment (models look them up)
+        for st in self.src.tree.body:
+            # a module-level constant of the file under analysis built from literals (X = re.compile('...'))
+            if isinstance(st, ast.Assign) and len(st.targets) == 1 and isinstance(st.targets[0], ast.Name) \
+                    and st.targets[0].id == name and literal_expression(st.value):
+                return eval_literal_expression(st.value)
         raise Unsupported(f'{self.c.qual}: unknown name {name!r}')
 
     def store(self, target, val):
@@ -1284,8 +1296,7 @@ class Engine:
             for st in cls.body:
                 if isinstance(st, ast.Assign) and len(st.targets) == 1 and isinstance(st.targets[0], ast.Name) \
                         and st.targets[0].id == attr and literal_expression(st.value):
-                    return eval(compile(ast.Expression(st.value), '<class attribute>', 'eval'),
-                                {'__builtins__': {}, 'str': str, 'frozenset': frozenset, 'set': set, 'tuple': tuple, 'dict': dict})
+                    return eval_literal_expression(st.value)
         init = next((m for m in cls.body if isinstance(m, ast.FunctionDef) and m.name == '__init__'), None) if cls else None
         if init is None:
             return NotImplemented
@@ -1966,6 +1977,14 @@ class Engine:
         raise Unsupported(f'call of {f!r}')
 
     def call_method(self, recv, name, args, kwargs, e):
+        if type(recv).__name__ == 'Pattern' and name in ('sub', 'match', 'search', 'fullmatch', 'findall', 'split') and not kwargs \
+                and all(type(a) in (str, int) for a in args):
+            r = getattr(recv, name)(*args)      # a compiled regular expression applied to concrete text: plain execution
+            if name in ('match', 'search', 'fullmatch'):
+                if r is not None:
+                    raise Unsupported('regular expression match object')
+                return None
+            return PyList(r) if isinstance(r, list) else r
         if isinstance(recv, Opt):
             self.oblige('safety', f'none:{ast.unparse(e)}'[:60], z3.Not(recv.isnone))
             recv = recv.val
@@ -1990,6 +2009,8 @@ class Engine:
             return Ratio(recv.us, 1000000)
         if isinstance(recv, DT) and name == 'replace':
             return self.dt_replace(recv, kwargs)
+        if isinstance(recv, DT) and name == 'timestamp' and not args:
+            return Ratio(recv.us, 1000000)      # POSIX seconds of an aware datetime (the float is treated as exact)
         if isinstance(recv, PyList) and name == 'append':
             recv.items.append(args[0])
             return None
